@@ -312,6 +312,7 @@ func notaryScenario(w *World, p *Plan, rec *Record) {
 			}
 			before := stateOf(n)
 			netMark, callMark := len(w.Net.Log), len(w.AccCalls)
+			quietBefore := w.Net.quiet() // a message sent earlier and delivered inside the window is other activity too
 			_, err, ok := call(n, name, f)
 			if !ok {
 				continue
@@ -321,8 +322,8 @@ func notaryScenario(w *World, p *Plan, rec *Record) {
 				w.violate("C16", "accepted", "invalid-request-accepted:"+desc, n.Idx, "%s returned no error", name)
 			}
 			simrt.SleepFor(30 * time.Millisecond)
-			if after := stateOf(n); after != before && netMark == len(w.Net.Log) && callMark == len(w.AccCalls) && !w.ledgerMovedLegitimately(n) {
-				w.violate("C16", "state", "invalid-request-changed-state:"+desc, n.Idx, "%s changed %s", name, stateDiff(before, after))
+			if after := stateOf(n); after != before && quietBefore && w.Net.quiet() && netMark == len(w.Net.Log) && callMark == len(w.AccCalls) && !w.ledgerMovedLegitimately(n) {
+				w.violate("C16", "state", "invalid-request-changed-state:"+desc, n.Idx, "%s changed %s (%s)", name, stateDiff(before, after), w.cacheDelta(n.Idx))
 			}
 		case "waiting", "history", "balance":
 			a := r.Intn(nw)
